@@ -148,7 +148,13 @@ class Case(object):
                 tabs.append(t)
         subset = '+'.join(tabs)
         with ctx.guard(case, where='set-start-index') as g:
-            lst.index = start
+            if isinstance(start, str):
+                # a rewound reader: positioned before the first result set, its tables still showing what was read last
+                lst.index = int(start.split('-')[-1])
+                lst.rewind()
+                ctx.count('history_calls_on_rewound_reader')
+            else:
+                lst.index = start
         if g.raised is not None:
             return
         before = snapshot(lst)
@@ -386,6 +392,8 @@ def run_shard(ctx, spec):
             continue
         ctx.count('files')
         starts = sorted(set([0, case.N // 2, case.N - 1]))
+        if case.N >= 2:
+            starts.append('rewind-after-0')
         n = 0
         reps = 5 if ctx.tier == 'thorough' else 1        # fresh random rows / columns / orders each time
         for sel, form in itertools.chain.from_iterable(gen_selections(ctx, case, ctx.tier) for _ in range(reps)):
